@@ -50,17 +50,17 @@ type mucCall struct {
 
 type mucRun struct {
 	base
-	client   *muc.Client
-	ch       *muc.Channel
-	calls    []*mucCall
-	joinbuf  bool
-	spos     string // idle taken inner depart errhold
-	holdFor  int
-	user     int
-	userSeen int
+	client      *muc.Client
+	ch          *muc.Channel
+	calls       []*mucCall
+	joinbuf     bool
+	spos        string // idle taken inner depart errhold
+	holdFor     int
+	user        int
+	userSeen    int
 	unavailSent bool
 	unavailDone bool
-	departTo int
+	departTo    int
 }
 
 func newMucRun() (*mucRun, error) {
@@ -482,6 +482,7 @@ func (x *runner) mucEmit(run *mucRun, acts []mucAction, note string) {
 
 func (x *runner) mucFinish(run *mucRun, acts []mucAction, class string) {
 	run.finish()
+	x.noteSlow("muc", run.failed, run.failWhat)
 	cc := mucCase{Mode: "muc", Actions: acts}
 	canon, _ := json.Marshal(cc)
 	cls := []string{"muc/" + class}
@@ -498,6 +499,9 @@ func (x *runner) mucFinish(run *mucRun, acts []mucAction, class string) {
 }
 
 func (x *runner) mucReplay(acts []mucAction, class string) {
+	if x.skip("muc") && class != "replay" {
+		return
+	}
 	run, err := newMucRun()
 	if err != nil {
 		x.res.Fail("C06/harness/setup", err.Error(), nil)
@@ -513,6 +517,9 @@ func (x *runner) mucReplay(acts []mucAction, class string) {
 }
 
 func (x *runner) mucWalk(r *hx.Rand, steps int) {
+	if x.skip("muc") {
+		return
+	}
 	run, err := newMucRun()
 	if err != nil {
 		x.res.Fail("C06/harness/setup", err.Error(), nil)
